@@ -422,7 +422,7 @@ class Runner:
                 self._bump("decorator_hit")
                 if ki in self.must_be_dead:
                     self._oracle_fail("complete", self.must_be_dead[ki], ki, f"`{line}` was served from the cache ({show_val(r)}) after delete_tags")
-            return mline, "v=" + show_val(r)
+            return mline, ("vs=" if self.body_ran else "v=") + show_val(r)
         if op == "delete":
             ki = int(w[1])
             self._touch_stats(ki)
